@@ -5,6 +5,8 @@ package w18
 
 import (
 	"fmt"
+	"os"
+	"path/filepath"
 	"reflect"
 	"sort"
 	"strings"
@@ -367,6 +369,16 @@ func Run(j *job.Job, s *job.Sink) {
 			s.Count("histories_with_a_multi_module_text", 1)
 		}
 		ops = append(ops, op{Kind: "process"}, op{Kind: "read"}, op{Kind: "process"})
+		// One history in eight ends with a file that is read from a directory and rejected.
+		// The directory also holds a module that a later text imports without anybody
+		// loading it: a set that was never offered the bad file does not know the directory
+		// and reports the import as missing, and so must this one.
+		if r.Intn(8) == 0 {
+			ops = append(ops, op{"badread", "zzbadf.yang", "module zzbadf {\n  namespace \"urn:zzbadf\";\n  prefix zf;\n  leaf x { type string; }\n" + []string{"", "  frobnicate y;\n}\n", "  leaf x { type string; }\n  typedef t { type nosuch; }\n  leaf-list { }\n}\n"}[r.Intn(3)]},
+				op{"load", "zzuser.yang", "module zzuser {\n  namespace \"urn:zzuser\";\n  prefix zu;\n  import zzdep { prefix d; }\n  leaf l { type d:t; }\n}\n"},
+				op{Kind: "process"})
+			s.Count("histories_with_a_rejected_file_read", 1)
+		}
 		s.Current(c, ops)
 		s.Count("histories", 1)
 		nproc, nbad := 0, 0
@@ -374,7 +386,7 @@ func Run(j *job.Job, s *job.Sink) {
 			switch o.Kind {
 			case "process":
 				nproc++
-			case "bad", "multi":
+			case "bad", "multi", "badread":
 				nbad++
 			}
 		}
@@ -410,6 +422,22 @@ func Run(j *job.Job, s *job.Sink) {
 				case "bad":
 					if err := ms.Parse(o.Text, o.Name); err == nil {
 						bad("generator", "bad text accepted: "+o.Name, nil)
+						return
+					}
+					failedLoads++
+				case "badread":
+					dir, err := os.MkdirTemp(".", "badread")
+					if err != nil {
+						continue
+					}
+					os.WriteFile(filepath.Join(dir, o.Name), []byte(o.Text), 0o644)
+					os.WriteFile(filepath.Join(dir, "zzdep.yang"), []byte("module zzdep {\n  namespace \"urn:zzdep\";\n  prefix zd;\n  typedef t { type int8; }\n}\n"), 0o644)
+					err = ms.Read(filepath.Join(dir, o.Name))
+					// (the directory stays until the history is over: what matters is whether
+					// the set still looks into it)
+					defer os.RemoveAll(dir)
+					if err == nil {
+						bad("generator", "bad file accepted: "+o.Name, nil)
 						return
 					}
 					failedLoads++
@@ -492,7 +520,7 @@ func Run(j *job.Job, s *job.Sink) {
 						l, b := firstDiff(live, batch)
 						class := "differs-from-batch"
 						switch {
-						case strings.Contains(l, ".bad.yang") || strings.Contains(b, ".bad.yang"):
+						case strings.Contains(l, ".bad.yang") || strings.Contains(b, ".bad.yang"), strings.Contains(l+b, "zzdep"), strings.Contains(l+b, "zzuser"), strings.Contains(l+b, "zzbadf"):
 							class = "failed-load-left-a-trace"
 						case strings.HasPrefix(b, "ERROR") && !strings.HasPrefix(l, "ERROR"):
 							class = "errors-forgotten"
